@@ -401,7 +401,7 @@ Print Assumptions C19_refresh_reread_refuted.
    Router/PrefetchCost.v: what the resource limiter charges for a run of client queries (connection, query, hit = 1 /
    miss = 3) and background refreshes; token buckets without refill, the global bucket in front of the client's.
    "The hit is answered immediately from cache" and "a failed refresh leaves the old entry usable" include the budget
-   that admits the client's next hit: a refresh must be invisible to it.
+   that lets in the client's next hit: a refresh must be invisible to it.
 
    (1) The cost charged to a client is a function of ITS OWN requests only.  Two runs with the same requests in the same
    order and ARBITRARY background refreshes in between — any number, started by anybody, at any point, with any result —
@@ -429,7 +429,7 @@ Proof.
 Qed.
 Print Assumptions C19_cost_formula.
 
-(* (3) a budget sized exactly for n hits of a client admits and answers these n hits, whatever refreshes they start
+(* (3) a budget sized exactly for n hits of a client lets in and answers these n hits, whatever refreshes they start
    and however these end (kind prefetchcost, mode budget: n hits inside the window against a failing upstream) *)
 Theorem C19_budget_for_own_hits : forall burst l peer client n evs,
   filter pco_is_req evs = repeat (PcoReq l peer client PcoHit) n ->
